@@ -203,6 +203,20 @@ Allowed(s, e) ==
        /\ ("view" \in DOMAIN e /\ s2.stack # <<>>) => e.view = ViewOf(s2, Top(s2))
        /\ ("root" \in DOMAIN e) => e.root = s2.cells
 
+\* ---------------------------------------------------------------- copies
+\* e.src / e.dst: dimensions of a source buffer (cells 1, 2, ... row by row) and of the buffer that is
+\* overwritten by dst.clone_from(&src); observed: dimensions and rows of the source (sdims, srows), of the
+\* overwritten buffer (ddims, drows), of src.clone() (cdims, crows), and the source's rows after a write
+\* to another clone (s2rows)
+CloneAllowed(e) ==
+  LET w == e.src[1]  h == e.src[2]
+      rows == [y \in 1..h |-> [x \in 1..w |-> (y - 1) * w + x]]
+  IN /\ e.panic = 0
+     /\ e.sdims = <<w, h>> /\ e.srows = rows
+     /\ e.ddims = <<w, h>> /\ e.drows = rows
+     /\ e.cdims = <<w, h>> /\ e.crows = rows
+     /\ e.s2rows = rows
+
 \* ---------------------------------------------------------------- properties
 \* of the relation itself, checked by MC_Buf2 on every transition
 
